@@ -16,16 +16,16 @@ from props import build_common as bc
 import pegdump
 
 WF_DEF = """
-Definition show_wf (g : grammar) (c : config) (tbl : list ((nat * nat) * nat)) (fuel : nat) (input : list N) : string :=
+Definition show_wf (g : grammar) (c : config) (mm : list ninfo) (tbl : list ((nat * nat) * nat)) (fuel : nat) (input : list N) : string :=
   match run g c (orc_of tbl) false fuel input with
-  | Parsed (RTree (NT _ (t :: _))) => if wf_tree t then "T" else "F"
+  | Parsed (RTree (NT _ (t :: _))) => (if wf_tree t then "T" else "F") ++ (if asg_placed mm false t then "T" else "F")
   | _ => "-"
   end.
 """
 
 
 def wf_expr(ci, res, run, text):
-    return "show_wf g%d c%d %s %d %s" % (ci, ci, pegdump.coq_table(run["table"]), bc.FUEL, pegdump.coq_str(text))
+    return "show_wf g%d c%d m%d %s %d %s" % (ci, ci, ci, pegdump.coq_table(run["table"]), bc.FUEL, pegdump.coq_str(text))
 
 
 def location_spec(text, pos):
@@ -116,7 +116,10 @@ def run(chk):
                     if mf.get("err") != "unsup" and not bc.outcomes_agree(mf, fm):
                         disagreements.append({"case": dict(cinfo, load="file"), "impl": fm, "model": mf})
             # ---- property oracle on the implementation
-            wf = mv[1]
+            wf = mv[1][:1]
+            if mv[1][1:] == "F":
+                # hypothesis of C06_objects_nested_ordered: assignment nodes are children of common-rule nodes
+                disagreements.append({"case": cinfo, "impl": "an assignment node outside a common-rule node in the parse tree", "model": mv[1]})
             chk.stat("model tree: %s" % {"T": "well-formed", "F": "not well-formed", "-": "no tree"}.get(wf, "?"))
             for which, out, fname in (("str", im, None), ("file", fm, run_.get("file_name"))):
                 if out is None or not out["ok"] or (which == "file" and "\r" in text):
